@@ -571,7 +571,7 @@ impl World {
                 let r = &rn.raft;
                 r.state != StateRole::Leader
                     && r.promotable()
-                    && r.prs().conf().voters().is_singleton()
+                    && crate::obs::sole_voter(rn)
                     && (r.raft_log.persisted < r.raft_log.last_index() || !self.nodes[ni].batches.is_empty())
             }
         }
@@ -778,7 +778,7 @@ impl World {
         self.mon.on_ready(ni, &rd, false, &self.nodes, self.op_index);
         // 1. immediate messages
         let imm = rd.take_messages();
-        let hold_f1 = self.options & HOLD_F1 != 0 && self.f1_shape(ni, &rd, &imm);
+        let hold_f1 = self.options & HOLD_F1 != 0 && !imm.is_empty() && self.f1_shape(ni);
         let imm_metas: Vec<MsgMeta> = metas.drain(..n_imm).collect();
         let mut held: Option<(Vec<Message>, Vec<MsgMeta>)> = None;
         if hold_f1 {
@@ -903,19 +903,19 @@ impl World {
         true
     }
 
-    /// Shape of known finding F1: a node that is leader in a Ready whose hard
-    /// state changes term or vote (it won without any peer's vote) releasing
-    /// immediate messages.
-    fn f1_shape(&self, ni: usize, rd: &raft::Ready, imm: &[Message]) -> bool {
-        if imm.is_empty() {
-            return false;
-        }
-        match rd.hs() {
-            Some(hs) => {
-                let d = &self.nodes[ni].disk.hs;
-                hs.term != d.term || hs.vote != d.vote
-            }
+    /// Shape of known finding F1: a leader that is the sole voter of its own
+    /// configuration (it won without any peer's vote) releasing immediate messages
+    /// while its current term/vote is not yet durable.
+    fn f1_shape(&self, ni: usize) -> bool {
+        let n = &self.nodes[ni];
+        match n.rn.as_ref() {
             None => false,
+            Some(rn) => {
+                let r = &rn.raft;
+                r.state == StateRole::Leader
+                    && crate::obs::sole_voter(rn)
+                    && (n.disk.hs.term != r.term || n.disk.hs.vote != r.vote)
+            }
         }
     }
 
@@ -944,7 +944,7 @@ impl World {
         self.mon.on_ready(ni, &rd, true, &self.nodes, self.op_index);
         let imm = rd.take_messages();
         let imm_metas: Vec<MsgMeta> = metas.drain(..n_imm).collect();
-        let hold_f1 = self.options & HOLD_F1 != 0 && self.f1_shape(ni, &rd, &imm);
+        let hold_f1 = self.options & HOLD_F1 != 0 && !imm.is_empty() && self.f1_shape(ni);
         let mut held_msgs: Vec<(Message, MsgMeta)> = vec![];
         if hold_f1 {
             self.stats.excluded_f1 += 1;
